@@ -59,6 +59,73 @@ def roundtrip(chk, expr, key, what, spin_model=None):
     return ev
 
 
+def names_roundtrips(chk, quick):
+    """The round trip under other tensor_names.json configurations: a fresh
+    interpreter on a scratch copy of the package prints and imports; both
+    sides are projected there and judged here (names mapped back)."""
+    import json
+    import os
+    import shutil
+    import tempfile
+    from . import c19
+    from .. import events
+    cfg = json.load(open("/repo/adcgen/tensor_names.json"))
+    configs = [dict(cfg, eri="Vee", fock="fk", gs_amplitude="amp",
+                    orb_energy="eps", sym_orb_denom="Den", operator="op",
+                    gs_density="rhoq")]
+    if not quick:
+        configs.append(dict(cfg, eri="W", fock="h", gs_amplitude="s",
+                            orb_energy="x", sym_orb_denom="Z", operator="g",
+                            gs_density="r"))
+    # (requests whose results contain non-registry indices - the open finding
+    # roundtrip:non-registry-index - are left to the default configuration)
+    reqs = ["energy2", "m1phph", "t2_2"] if quick else \
+        ["energy2", "energy3", "t2_2", "m1phph", "m2phph", "ovl2",
+         "p0_2_exp", "p0_2_vv_exp", "expect2"]
+    for newcfg in configs:
+        scratch = tempfile.mkdtemp(prefix="adcgen_names_")
+        try:
+            shutil.copytree("/repo/adcgen", os.path.join(scratch, "adcgen"))
+            json.dump(newcfg, open(os.path.join(scratch, "adcgen",
+                                                "tensor_names.json"), "w"))
+            rename = {newcfg[k]: cfg[k] for k in cfg if newcfg[k] != cfg[k]}
+            out = c19.run_worker(["rt:" + q for q in reqs], 0,
+                                 pkg_root=scratch)
+            chk.count("processes")
+            for rec in out:
+                what = (f"print/import round trip of {rec['req'][3:]} with "
+                        f"tensor_names.json {newcfg}")
+                chk.count("roundtrips")
+                if rec["kind"] == "exception":
+                    chk.report_direct("roundtrip:names:exception",
+                                      f"{what} raised {rec['exc']}", rec)
+                    continue
+                side = lambda terms: {"terms": terms, "idx": rec["idx"],  # noqa
+                                      "names": rec["names"], "tgt": rec["tgt"]}
+                a, b, idx, names, tgt = c19.merge(side(rec["pre"]),
+                                                  side(rec["post"]), rename)
+                ctx = adapter.Ctx(names=names)
+                ctx.idx = idx
+                adapter.fill_order(a, tgt)
+                adapter.fill_order(b, tgt)
+                bkn = events.collect_bk(ctx, [(a, True), (b, False)],
+                                        (tn.eri, tn.fock))
+                szs = build.pick_sizes([a, b], idx, tgt,
+                                       build.BUDGET[build.TIER], max_models=1)
+                models = [events.model(ctx, noa=szs[0][0], nva=szs[0][1],
+                                       seed=sd, bkn=bkn) for sd in (1, 2)]
+                chk.add_event({
+                    "op": "roundtrip", "key": "roundtrip:names", "what": what,
+                    "idx": idx, "tgt": sorted(tgt), "names": list(names),
+                    "models": models, "pre": a, "post": b,
+                    "tabhint": build.table_hint([a, b], ctx, tgt, szs[0],
+                                                False),
+                    "a": {"text_equal": bool(rec["text_equal"])},
+                    "text": {"pre": rec["text"], "post": ""}})
+        finally:
+            shutil.rmtree(scratch, ignore_errors=True)
+
+
 def run(chk):
     r = random.Random(chk.seed)
     quick = chk.tier == "quick"
@@ -170,6 +237,7 @@ def run(chk):
         x = Expr(total, **kw).expand()
         roundtrip(chk, x, "roundtrip:grammar", f"grammar sum {case}",
                   spin_model=True if build.has_spin(adapter.Ctx()) else None)
+    names_roundtrips(chk, quick)
     chk.judge(chunk=200)
     return chk.finish(
         rule="expanded expressions derived by the library (energies, "
